@@ -598,6 +598,10 @@ def decimal_fields(draw, fmt):
     return {"length": length, "type": "Decimal", "rule": ", ".join(parts), "mode": mode, "expect": expect}
 
 
+_TEXT_SIZE_BOUNDARIES = [254, 255, 256, 1999, 2000, 2001, 3999, 4000, 4001, 7999, 8000, 8001, 32671, 32672, 32673, 32766,
+                         32767, 65534, 65535, 65536, 1048576, 2147483647]
+
+
 @st.composite
 def _text_length(draw, fmt, must_include=None):
     """(length text, upper limit or None, mode); ``must_include`` is a length the declaration has to admit."""
@@ -607,7 +611,9 @@ def _text_length(draw, fmt, must_include=None):
     mode = draw(st.sampled_from(["none", "exact", "upper", "lower", "closed", "two-items", "two-items-open"]))
     c = must_include
     a = draw(st.integers(0, 20)) if c is None else draw(st.integers(0, c))
-    b = a + draw(st.one_of(st.integers(0, 5), st.integers(0, 4000))) if c is None else c + draw(st.integers(0, 50))
+    # upper limits also around the sizes at which databases switch types or refuse a plain varchar(n)
+    b = a + draw(st.one_of(st.integers(0, 5), st.integers(0, 4000), st.sampled_from(_TEXT_SIZE_BOUNDARIES))) \
+        if c is None else c + draw(st.integers(0, 50))
     sep = draw(st.sampled_from(_SEPARATORS))
     if mode == "none":
         return "", None, mode
@@ -673,6 +679,12 @@ def cid_cases(draw):
             while name.lower() in used:
                 name += "_"
         used.add(name.lower())
+        if fields and draw(st.integers(0, 5)) == 0:
+            # a name that differs from an earlier one only in the case of its letters is another name
+            twin = fields[draw(st.integers(0, len(fields) - 1))]["name"]
+            variant = twin.swapcase() if twin.swapcase() != twin else twin
+            if variant != twin and _valid_name(variant) and variant not in [f["name"] for f in fields]:
+                name, name_kind = variant, "case-twin"
         empty = draw(st.sampled_from(["", "", "X", "x"]))
         what = draw(st.sampled_from(["int", "int", "int", "dec", "dec", "text", "text", "date"]))
         if what == "int":
